@@ -198,7 +198,7 @@ CHECKS['C10'] = ('exploration', 'enum',
     'to the same components; six respelling families must each normalise to one string. Call '
     'histories: every sequence of <=2 (3) normalisations over 32 (text, encoding) items from a '
     'fresh interpreter (fork tree) must give each item its fresh-interpreter result.',
-    'alphabets and lengths as stated; encoded dots are not dot segments.', '5/C10')
+    'alphabets and lengths as stated.', '5/C10')
 CHECKS['C11'] = ('exploration', 'enum',
     'bounded-exhaustive enumeration of strings through URLInfo.parse, every documented accessor, '
     'parse_url_or_log and urljoin_safe with a non-termination watchdog',
@@ -249,6 +249,51 @@ CHECKS['C09'] = ('exploration', 'enum',
     'final state.',
     'only the stated edit neighbourhoods are covered: "raw random bytes" are outside a bounded '
     'enumeration (DESIGN.md section 11).', '5/C09')
+
+# coverage added after the first version of a text (kept apart so that the history of what
+# was added when stays readable)
+MORE = {
+    'C01': ' Added: a frame outside the start directory whose links point back into it '
+           '(-r -p --no-parent), responses delivered in pieces, pages with 1005/2003 links '
+           '(storage batches), 70 KB documents.',
+    'C02': ' Added: redirects of /robots.txt under eight option sets x five codes (only '
+           'robots.txt itself is exempt), host names with a root dot and list entries in '
+           'other spellings, percent-encoded dot segments, bracket classes in -R, FTP links.',
+    'C03': ' Added: kill points after every schema statement (CREATE TABLE / INDEX are '
+           'committed one by one), --database-uri, and the resumed run may request no URL '
+           'more often than an uninterrupted crawl nor any URL outside its set.',
+    'C09': ' Added: whole crawls with a hostile robots.txt redirect (17 targets x 3 codes), '
+           'sitemap bodies (damaged gzip), hostile pages run with --delete-after, with files '
+           'and with --convert-links, symbolic-link and scheme-like names in FTP listings, a '
+           'cookie flood and a certificate failure.',
+    'C10': ' Added: every text codec of the interpreter x 16 probe characters, the normal '
+           'form parsed again with the default encoding, an independent IPv4 reader (1-4 '
+           'parts, ranges, root dot), trailing and percent-encoded dot segments.',
+    'C12': ' Added: N=4-5 clients with M=2-3, two sessions per client, the proxy connection '
+           'pool (acquire interface, failures while connecting to the proxy), idle-host '
+           'bookkeeping judged before any forced clean(), two-fault jobs.',
+    'C13': ' Added: a second process() on a refilled source, falsy work items, and the '
+           'Application with all pipelines built by Builder crawling a five-page site with '
+           'Application.stop() delivered at every step.',
+    'C14': ' Added: property objects without parent/root URL, and a depth-first search on '
+           'one live table object (snapshot/restore of the connection) for state that a '
+           'reopen hides.',
+    'C15': ' Added: the 64 --restrict-file-names subsets through the command line, and FTP '
+           'listings whose symbolic-link entries carry 17 hostile names '
+           '(--retr-symlinks=off), judged on the file system.',
+    'C16': ' Added: requests with a body through redirect chains, 17 cookie Domain '
+           'attribute cases between unrelated hosts (by link and by five redirect codes).',
+    'C19': ' Added: a damaged copy of a checksummed (gzip/zlib) stream may decode to the '
+           'payload or fail but never to other content, all 256 values of the two sniffed '
+           'bytes, zero-length pieces, two bodies on one Stream, coded bodies through '
+           'read_body under every framing.',
+    'C20': ' Added: redirect targets into disallowed paths and other origins, UTF-8 rules, '
+           'three nofollow pages incl. "none", and several start URLs on one origin whose '
+           'robots.txt is answered differently the second time.',
+}
+for _pid, _more in MORE.items():
+    _c = CHECKS[_pid]
+    CHECKS[_pid] = (_c[0], _c[1], _c[2], _c[3] + _more, _c[4], _c[5])
 
 NOT_YET = {}
 
